@@ -58,6 +58,8 @@ Record dcase := {
   d_hist : list op;                        (* registration history, run through Broker.v *)
   d_ety : N;                               (* event type sent *)
   d_snapshot : option (list root);         (* the implementation's pipelines for the type, sorted by id (None: no graph) *)
+  d_during : list op;                      (* registry calls made by the nodes themselves, from inside Process, while this Send
+                                              was fanning out (in the order they were made) *)
   d_pre : bool;                            (* the context was cancelled before Send was called *)
   d_trace : list ev;
   d_quiet : bool;                          (* every harness node returned and the grace period passed: the trace is final *)
@@ -248,6 +250,26 @@ Definition model_roots (c : dcase) : option (list root) :=
   option_map sort_roots (roots_of_broker (run nocf (d_hist c)) (d_ety c)).
 Definition model_thr (c : dcase) : Z * Z := thresholds_of (run nocf (d_hist c)) (d_ety c).
 
+(* The pipelines this Send may traverse when nodes changed the registry during the fan-out.  Range's contract (sync.Map): a
+   pipeline present from beginning to end is visited exactly once; one removed or added while the Range runs may or may
+   not be visited.  The observation (was it started?) is fed to the model as the oracle's answer:
+     - pipelines registered before the Send that are still there afterwards, unchanged: must be traversed;
+     - pipelines registered before that the nodes removed (or replaced) during the Send: traversed iff the trace started them;
+     - pipelines the nodes added during the Send: traversed iff the trace started them. *)
+Definition after_roots (c : dcase) : list root :=
+  match roots_of_broker (run nocf (d_hist c ++ d_during c)) (d_ety c) with Some rs => rs | None => [] end.
+Definition was_started (p : N) (tr : list ev) : bool :=
+  existsb (fun e => match e with EvStart q => N.eqb p q | _ => false end) tr.
+Definition eff_roots (c : dcase) (roots : list root) : list root :=
+  match d_during c with
+  | [] => roots
+  | _ =>
+      let after := after_roots c in
+      sort_roots
+        (filter (fun r => existsb (root_eqb r) after || was_started (fst r) (d_trace c)) roots ++
+         filter (fun r => negb (existsb (fun q => N.eqb (fst q) (fst r)) roots) && was_started (fst r) (d_trace c)) after)
+  end.
+
 Definition end_kind := 0%N.
 
 Definition enc_out (o : outcome) : N := match o with ODrop => 0 | OPass e => 2 * e + 1 | OErr x => 2 * x + 2 end%N.
@@ -329,11 +351,13 @@ Definition run_case (c : dcase) : list (N * N * kind) :=
   match model_roots c with
   | None => tagE (nograph_of c ++ oracle_of c)
   | Some roots =>
-      (* the trace is replayed over the pipelines the registration history registered (registry model) *)
-      match run_trace (beh_of (d_trace c)) (e0_of (d_trace c)) (want_of c) (a0_of c roots) 0%N (d_trace c) with
-      | (_, Some m) => m :: tagE (reg_of c roots ++ invented_of c roots ++ errobs_of c ++ skipobs_of c roots ++ oracle_of c)
+      (* the trace is replayed over the pipelines the registration history registered (registry model), adjusted by what the
+         nodes themselves did to the registry during the Send *)
+      let er := eff_roots c roots in
+      match run_trace (beh_of (d_trace c)) (e0_of (d_trace c)) (want_of c) (a0_of c er) 0%N (d_trace c) with
+      | (_, Some m) => m :: tagE (reg_of c roots ++ invented_of c er ++ errobs_of c ++ skipobs_of c er ++ oracle_of c)
       | (a, None) =>
-          tagE (proto_end_of c (a_st a) ++ final_checks c (a_st a) (a_rets a) ++ reg_of c roots ++ invented_of c roots ++ oracle_of c)
+          tagE (proto_end_of c (a_st a) ++ final_checks c (a_st a) (a_rets a) ++ reg_of c roots ++ invented_of c er ++ oracle_of c)
       end
   end.
 
